@@ -238,3 +238,47 @@ package lang
 //@ func (*Variables).GetString [C08] trusted
 //@   modifies nothing
 //@   ensures imp(result1 == nil, result == $varString(v, path))
+
+// ---- C33: redirections (lang/redirection.go, createProcess) ---------------------------------------------
+//@ spec $isPrefixed(n string) bool = (len(n) > 5 && n[0:5] == "test_") || (len(n) > 6 && n[0:6] == "state_") || (len(n) > 4 && (n[0:4] == "env:" || n[0:4] == "fid:" || n[0:4] == "pid:"))
+
+//@ func pipeErr [C33 C19]
+//@   requires p != nil && p.Stderr != nil
+//@   modifies nothing
+
+// Variables.Set writes the variable table only (trusted: C11 looks inside).
+//@ func (*Variables).Set [C33] trusted
+//@   modifies mapof(v.vars)
+
+//@ func parseRedirectionTemp [C33]
+//@   scope functional
+//@   requires p != nil && GlobalPipes.pipes != nil
+//@   modifies p.NamedPipeOut, mapof(GlobalPipes.pipes)
+//@   ensures imp(result != nil, p.NamedPipeOut == old(p.NamedPipeOut))
+
+// One redirection name per step (n = p.namedPipes[$idx]):
+//  R1 a `!name` becomes the stderr pipe (without the `!`) if none was chosen yet;
+//  R2 a plain name becomes the stdout pipe if none was chosen yet;
+//  R3 a second stdout/stderr redirection never overwrites the first;
+//  R4 test_/state_/env:/fid:/pid: names touch neither.
+//@ func parseRedirection [C33 C19]
+//@   requires p != nil && p.Stderr != nil && p.Config != nil && p.Variables != nil && p.Variables.vars != nil && ShellProcess != nil && ShellProcess.Stderr != nil && GlobalPipes.pipes != nil
+//@   requires forall(k, 0, len(p.namedPipes), len(p.namedPipes[k]) > 0)
+//@   inst $idx
+//@   loop 1 invariant forall(k, 0, len(old(p.namedPipes)), len(old(p.namedPipes)[k]) > 0)
+//@   loop 1 invariant p.Stderr != nil && p.Config != nil && p.Variables != nil && p.Variables.vars != nil && ShellProcess != nil && ShellProcess.Stderr != nil && GlobalPipes.pipes != nil
+//@   loop 1 step imp(!$isPrefixed(name) && name[0] == '!' && old(p.NamedPipeErr) == "", p.NamedPipeErr == name[1:len(name)])
+//@   loop 1 step imp(!$isPrefixed(name) && name[0] != '!' && !$contains(name, ":") && old(p.NamedPipeOut) == "", p.NamedPipeOut == name)
+//@   loop 1 step imp(old(p.NamedPipeErr) != "", p.NamedPipeErr == old(p.NamedPipeErr))
+//@   loop 1 step imp(old(p.NamedPipeOut) != "" && !$contains(name, ":"), p.NamedPipeOut == old(p.NamedPipeOut))
+//@   loop 1 step imp($isPrefixed(name), p.NamedPipeOut == old(p.NamedPipeOut) && p.NamedPipeErr == old(p.NamedPipeErr))
+
+// createProcess wiring (abstracted): `<!out>` sends stderr where stdout goes; a named pipe
+// becomes the respective stream.
+//@ func createProcess [C33]
+//@   scope functional
+//@   check none
+//@   requires p != nil
+//@   at store Stderr#1 assert p.Stderr == p.Stdout
+//@   at store Stderr#2 assert p.Stderr == pipeǂ1
+//@   at store Stdout#2 assert p.Stdout == pipeǂ2
